@@ -597,7 +597,7 @@ static void conf_fail(const char *sig, const char *msg) {
 static void conf_clear(conf_t *c) { int f; for (f = 0; f < NF; f++) c->v[f] = -1; }
 
 typedef struct {
-	int kind, nE, mode;           /* mode 0: push-config callback, 1: PUSH_CONFIG_RECEIVED handles, 2: handles, all pushes before the first run */
+	int kind, nE, mode;           /* mode 0: push-config callback, 1: PUSH_CONFIG_RECEIVED handles, 2: handles, all pushes before the first run (3: as 1, first endpoint via setEndpoint) */
 	KSI_CTX *ctx;
 	KSI_AsyncService *ha;
 	uint64_t prime_id[MAXE]; int prime_seen[MAXE];
@@ -662,7 +662,8 @@ static int b_run(void) {
 }
 static void b_open(int kind, int nE, int mode) {
 	KSI_AsyncHandle *h = NULL;
-	int e, r;
+	int e, r, setup = (mode == 3);   /* mode 3: handle delivery on a service whose first endpoint was given with KSI_AsyncService_setEndpoint */
+	if (setup) mode = 1;
 	memset(&B, 0, sizeof B);
 	B.kind = kind; B.nE = nE; B.mode = mode;
 	conf_clear(&B.view);
@@ -673,7 +674,8 @@ static void b_open(int kind, int nE, int mode) {
 	for (e = 0; e < nE; e++) {
 		char uri[64];
 		snprintf(uri, sizeof uri, "ksi+tcp://ha%d.test:%d", e, 1001 + e);
-		if (KSI_AsyncService_addEndpoint(B.ha, uri, LOGIN, KEY) != KSI_OK) vf_harness_error("addEndpoint");
+		if (setup && e == 0) { if (KSI_AsyncService_setEndpoint(B.ha, uri, LOGIN, KEY) != KSI_OK) vf_harness_error("setEndpoint"); }
+		else if (KSI_AsyncService_addEndpoint(B.ha, uri, LOGIN, KEY) != KSI_OK) vf_harness_error("addEndpoint");
 	}
 	KSI_AsyncService_setOption(B.ha, KSI_ASYNC_OPT_MAX_REQUEST_COUNT, (void *)(size_t)8);
 	if (mode == 0 && KSI_AsyncService_setOption(B.ha, KSI_ASYNC_OPT_PUSH_CONF_CALLBACK, (void *)b_conf_cb) != KSI_OK) vf_harness_error("callback option");
@@ -789,7 +791,7 @@ static void b_multiset(int kind, int nE, int n, const conf_t *cfg, const int *ep
 	int mode, f, j, distinct_eps = 1, nperm_total = 0;
 	int bad[NF] = {0};
 	for (j = 0; j < n; j++) { int i; for (i = 0; i < j; i++) if (eps[i] == eps[j]) distinct_eps = 0; }
-	for (mode = 0; mode < 3; mode++) {
+	for (mode = 0; mode < 4; mode++) {
 		int p[3] = {0, 1, 2}, first = 1;
 		conf_t ref_final;
 		char first_order[8] = "";
